@@ -140,7 +140,7 @@ def noninput_vars(case, path):
     return list(seen.values())
 
 
-def rename_pairs(vars_, suffix="'"):
+def rename_pairs(vars_, suffix="_p"):
     return [(v, z3.Int(str(v) + suffix)) for v in vars_]
 
 
